@@ -253,6 +253,409 @@ theorem bubbleUpMax_to {s : Store P} {n hole idx : Nat} (h : Hole s n hole idx) 
   refine SafeR.bind (unwrapO_to _ 319) fun e _ => ?_
   exact bubbleUpMaxLoop_to n idx e.2 (hole + 1) s hole h (by omega)
 
+/-- `bubble_up(position, map_position)` when `map_position` is the slot at `position` -/
+theorem bubbleUp_to {s : Store P} {n pos idx : Nat} (h : Tab s n) (hp : s.heap[pos]? = some idx) :
+    SafeR (fun r => Tab r.1 n ∧ r.1.map = s.map ∧ r.1.size = s.size ∧ r.2 < n) (bubbleUp s pos idx) := by
+  have hposn : pos < n := by rw [← h.heap_size]; exact lt_size_of_getElem? hp
+  have hH : Hole s n pos idx := h.toHole hp
+  unfold bubbleUp
+  refine SafeR.bind (unwrapO_to _ 310) fun e _ => ?_
+  have fin : ∀ r : Store P × Nat, Hole r.1 n r.2 idx ∧ r.1.map = s.map ∧ r.1.size = s.size ∧ r.2 ≤ pos →
+      SafeR (fun r => Tab r.1 n ∧ r.1.map = s.map ∧ r.1.size = s.size ∧ r.2 < n)
+        (do
+          let heap ← setU r.1.heap r.2 idx 316
+          let qp ← setU r.1.qp idx r.2 317
+          pure (({ r.1 with heap := heap, qp := qp } : Store P), r.2)) := by
+    intro r hr
+    obtain ⟨s1, p1⟩ := r
+    obtain ⟨h1, m1, z1, _⟩ := hr
+    dsimp only at h1 m1 z1 ⊢
+    refine SafeR.bind (setU_to idx 316 (by rw [h1.heap_size]; exact h1.hole_lt)) fun heap hheap => ?_
+    refine SafeR.bind (setU_to p1 317 (by rw [h1.qp_size]; exact h1.idx_lt)) fun qp hqp => ?_
+    subst hheap hqp
+    exact SafeR.pure ⟨h1.fill, m1, z1, h1.hole_lt⟩
+  dsimp only
+  split
+  · rename_i hpos
+    have hpar : parent pos < pos := by simp only [parent]; omega
+    refine SafeR.bind (prioAt_to (by rw [h.heap_size]; omega)) fun pp _ => ?_
+    refine SafeR.bind (getU_to 311 (by rw [h.heap_size]; omega)) fun pi hpi => ?_
+    have hpin : pi < n := h.heap_lt hpi
+    have hstep := Hole.step (hH.tick (k := 1)) (pp := parent pos) (pi := pi) (by omega) (by omega) hpi
+    split
+    · refine SafeR.bind (setU_to pi 312 (by show _ < s.heap.size; rw [h.heap_size]; exact hposn)) fun heap hheap => ?_
+      refine SafeR.bind (setU_to pos 313 (by show _ < s.qp.size; rw [h.qp_size]; exact hpin)) fun qp hqp => ?_
+      subst hheap hqp
+      refine SafeR.bind (bubbleUpMax_to hstep idx) fun r hr => ?_
+      exact fin r ⟨hr.1, hr.2.1, hr.2.2.1, by have := hr.2.2.2; omega⟩
+    · refine SafeR.bind (bubbleUpMin_to (hH.tick (k := 1)) idx) fun r hr => ?_
+      exact fin r hr
+    · refine SafeR.bind (bubbleUpMax_to (hH.tick (k := 1)) idx) fun r hr => ?_
+      exact fin r hr
+    · refine SafeR.bind (setU_to pi 314 (by show _ < s.heap.size; rw [h.heap_size]; exact hposn)) fun heap hheap => ?_
+      refine SafeR.bind (setU_to pos 315 (by show _ < s.qp.size; rw [h.qp_size]; exact hpin)) fun qp hqp => ?_
+      subst hheap hqp
+      refine SafeR.bind (bubbleUpMin_to hstep idx) fun r hr => ?_
+      exact fin r ⟨hr.1, hr.2.1, hr.2.2.1, by have := hr.2.2.2; omega⟩
+  · exact fin (s, pos) ⟨hH, rfl, rfl, Nat.le_refl _⟩
+
+/-- `up_heapify` at ANY position -/
+theorem upHeapify_to {s : Store P} {n : Nat} (h : Tab s n) (hs : s.size = n) (i : Nat) :
+    SafeR (fun s' => Tab s' n ∧ s'.map = s.map ∧ s'.size = s.size) (upHeapify s i) := by
+  unfold upHeapify
+  split
+  · exact SafeR.pure ⟨h, rfl, rfl⟩
+  · rename_i tmp htmp
+    refine SafeR.bind (bubbleUp_to h htmp) fun r hr => ?_
+    obtain ⟨s1, p1⟩ := r
+    obtain ⟨t1, m1, z1, _⟩ := hr
+    dsimp only at t1 m1 z1 ⊢
+    have key : ∀ s2 : Store P, Tab s2 n ∧ s2.map = s.map ∧ s2.size = s.size →
+        SafeR (fun s' => Tab s' n ∧ s'.map = s.map ∧ s'.size = s.size) (heapify s2 p1) := by
+      intro s2 hs2
+      refine SafeR.mono (heapify_to hs2.1 (by rw [hs2.2.2, hs]) p1) fun s' hs' => ?_
+      exact ⟨hs'.1, by rw [hs'.2.1, hs2.2.1], by rw [hs'.2.2, hs2.2.2]⟩
+    split
+    · refine SafeR.bind (heapify_to t1 (by rw [z1, hs]) i) fun s' hs' => ?_
+      exact key s' ⟨hs'.1, by rw [hs'.2.1, m1], by rw [hs'.2.2, z1]⟩
+    · exact key s1 ⟨t1, m1, z1⟩
+
+/-! ## `heap_build` -/
+
+theorem heapBuildLoop_to {n : Nat} (k : Nat) : ∀ (s : Store P), Tab s n → s.size = n →
+    SafeR (fun s' => Tab s' n ∧ s'.map = s.map ∧ s'.size = s.size) (heapBuildLoop s k) := by
+  induction k with
+  | zero => intro s h hs; unfold heapBuildLoop; exact heapify_to h hs 0
+  | succ k ih =>
+    intro s h hs
+    unfold heapBuildLoop
+    refine SafeR.bind (heapify_to h hs (k + 1)) fun s1 hs1 => ?_
+    refine SafeR.mono (ih s1 hs1.1 (by rw [hs1.2.2, hs])) fun s' hs' => ?_
+    exact ⟨hs'.1, by rw [hs'.2.1, hs1.2.1], by rw [hs'.2.2, hs1.2.2]⟩
+
+theorem heapBuild_to {s : Store P} (h : s.TablesOnlyWF) :
+    SafeR (fun s' => s'.TablesOnlyWF ∧ s'.map = s.map ∧ s'.size = s.size) (DQ.heapBuild s) := by
+  obtain ⟨ht, hm⟩ := towf_iff.1 h
+  unfold heapBuild
+  split
+  · exact SafeR.pure ⟨h, rfl, rfl⟩
+  · rename_i hne
+    refine SafeR.bind (parentC_to 326 hne) fun top _ => ?_
+    refine SafeR.mono (heapBuildLoop_to top s ht rfl) fun s' hs' => ?_
+    exact ⟨towf_of_tab hs'.1 hs'.2.2 (by rw [hs'.2.1]; exact hm), hs'.2.1, hs'.2.2⟩
+
+/-! ## `find_max` -/
+
+theorem findMax_to {s : Store P} {n : Nat} (h : Tab s n) (hs : s.size = n) :
+    SafeR (fun r => r.1.heap = s.heap ∧ r.1.qp = s.qp ∧ r.1.map = s.map ∧ r.1.size = s.size ∧
+        (∀ p, r.2 = some p → p < n) ∧ (r.2 = none → n = 0)) (findMax s) := by
+  unfold findMax
+  split
+  · rename_i h0
+    exact SafeR.pure ⟨rfl, rfl, rfl, rfl, fun p hp => (by cases hp), fun _ => by omega⟩
+  · rename_i h1
+    exact SafeR.pure ⟨rfl, rfl, rfl, rfl, fun p hp => (by cases hp; omega), fun hp => by cases hp⟩
+  · rename_i h2
+    exact SafeR.pure ⟨rfl, rfl, rfl, rfl, fun p hp => (by cases hp; omega), fun hp => by cases hp⟩
+  · rename_i h0 h1 h2
+    have hn : 3 ≤ n := by
+      rw [← hs]
+      rcases hsz : s.size with _ | _ | _ | k
+      · exact absurd hsz h0
+      · exact absurd hsz h1
+      · exact absurd hsz h2
+      · omega
+    refine SafeR.bind (prioAt_to (by rw [h.heap_size]; omega)) fun p1 _ => ?_
+    refine SafeR.bind (prioAt_to (by rw [h.heap_size]; omega)) fun p2 _ => ?_
+    refine SafeR.pure ⟨rfl, rfl, rfl, rfl, fun p hp => ?_, fun hp => by cases hp⟩
+    cases hp
+    split <;> omega
+
+/-! ## The public operations -/
+
+theorem towf_tick {s : Store P} (h : s.TablesOnlyWF) (k : Nat) : (s.tick k).TablesOnlyWF :=
+  ⟨h.heap_size, h.qp_size, h.map_le, h.heap_qp, h.qp_heap⟩
+
+/-- a sifting result (same tables length, same map, same size) of a store with a short map is tables-only well-formed -/
+theorem towf_of_frame {s s' : Store P} {n : Nat} (ht : Tab s' n) (hs : s.size = n) (hm : s.map.size ≤ n)
+    (hmap : s'.map = s.map) (hsz : s'.size = s.size) : s'.TablesOnlyWF :=
+  towf_of_tab ht (by rw [hsz, hs]) (by rw [hmap]; exact hm)
+
+theorem push_to {s : Store P} (h : s.TablesOnlyWF) (it : Item) (p : P) :
+    SafeR (fun r => r.1.TablesOnlyWF) (DQ.push s it p) := by
+  obtain ⟨ht, hm⟩ := towf_iff.1 h
+  unfold DQ.push
+  rcases IMap.insertFull_cases s.map it p with ⟨i, e, hf, he, hk, hins⟩ | ⟨hf, hins⟩
+  · rw [hins]
+    dsimp only
+    have hil : i < s.map.size := IMap.find?_lt_size hf
+    refine SafeR.bind (getU_to 331 (by show i < s.qp.size; rw [ht.qp_size]; omega)) fun pos _ => ?_
+    have ht' : Tab ({ s with map := s.map.setIfInBounds i (e.1, p) } : Store P) s.size := ht.congr rfl rfl
+    refine SafeR.bind (upHeapify_to ht' rfl pos) fun s1 hs1 => ?_
+    refine SafeR.pure ?_
+    exact towf_of_frame (s := { s with map := s.map.setIfInBounds i (e.1, p) }) hs1.1 rfl
+      (by simpa using hm) hs1.2.1 hs1.2.2
+  · rw [hins]
+    dsimp only
+    have ht' : Tab ({ s with map := s.map.push (it, p), qp := s.qp.push s.size, heap := s.heap.push s.size } : Store P)
+        (s.size + 1) := ht.push.congr rfl rfl
+    refine SafeR.bind (bubbleUp_to ht' (pos := s.size) (idx := s.size) ht.push_last) fun r hr => ?_
+    obtain ⟨s1, p1⟩ := r
+    obtain ⟨t1, m1, z1, _⟩ := hr
+    dsimp only at t1 m1 z1 ⊢
+    refine SafeR.pure ?_
+    refine towf_of_tab (n := s.size + 1) (t1.congr rfl rfl) (by show s1.size + 1 = _; rw [z1]) ?_
+    show s1.map.size ≤ _
+    rw [m1]
+    show (s.map.push (it, p)).size ≤ _
+    rw [Array.size_push]; omega
+
+theorem pushIncrease_to {s : Store P} (h : s.TablesOnlyWF) (it : Item) (p : P) :
+    SafeR (fun r => r.1.TablesOnlyWF) (DQ.pushIncrease s it p) := by
+  unfold DQ.pushIncrease
+  split
+  · exact push_to h it p
+  · dsimp only
+    split
+    · exact push_to (towf_tick h 1) it p
+    · exact SafeR.pure (towf_tick h 1)
+
+theorem pushDecrease_to {s : Store P} (h : s.TablesOnlyWF) (it : Item) (p : P) :
+    SafeR (fun r => r.1.TablesOnlyWF) (DQ.pushDecrease s it p) := by
+  unfold DQ.pushDecrease
+  split
+  · exact push_to h it p
+  · dsimp only
+    split
+    · exact push_to (towf_tick h 1) it p
+    · exact SafeR.pure (towf_tick h 1)
+
+theorem changePriority_to' {s : Store P} (h : s.TablesOnlyWF) (k : Nat) (p : P) :
+    SafeR (fun r => r.1.TablesOnlyWF) (DQ.changePriority s k p) := by
+  obtain ⟨ht, hm⟩ := towf_iff.1 h
+  unfold DQ.changePriority
+  refine SafeR.bind (TO.changePriority_to (k := k) p ht hm) fun r hr => ?_
+  obtain ⟨s1, o⟩ := r
+  obtain ⟨h1, h2, h3, h4, _, _⟩ := hr
+  dsimp only at h1 h2 h3 h4 ⊢
+  have t1 : Tab s1 s.size := ht.congr h1 h2
+  split
+  · refine SafeR.bind (upHeapify_to t1 h3 _) fun s2 hs2 => ?_
+    exact SafeR.pure (towf_of_frame hs2.1 h3 (by rw [h4]; exact hm) hs2.2.1 hs2.2.2)
+  · exact SafeR.pure (towf_of_tab t1 h3 (by rw [h4]; exact hm))
+
+theorem changePriorityBy_to' {s : Store P} (h : s.TablesOnlyWF) (k : Nat) (g : P → P) :
+    SafeR (fun r => r.1.TablesOnlyWF) (DQ.changePriorityBy s k g) := by
+  obtain ⟨ht, hm⟩ := towf_iff.1 h
+  unfold DQ.changePriorityBy
+  refine SafeR.bind (TO.changePriorityBy_to (k := k) g ht hm) fun r hr => ?_
+  obtain ⟨s1, o⟩ := r
+  obtain ⟨h1, h2, h3, h4, _, _⟩ := hr
+  dsimp only at h1 h2 h3 h4 ⊢
+  have t1 : Tab s1 s.size := ht.congr h1 h2
+  split
+  · refine SafeR.bind (upHeapify_to t1 h3 _) fun s2 hs2 => ?_
+    exact SafeR.pure (towf_of_frame hs2.1 h3 (by rw [h4]; exact hm) hs2.2.1 hs2.2.2)
+  · exact SafeR.pure (towf_of_tab t1 h3 (by rw [h4]; exact hm))
+
+theorem remove_to' {s : Store P} (h : s.TablesOnlyWF) (k : Nat) :
+    SafeR (fun r => r.1.TablesOnlyWF) (DQ.remove s k) := by
+  obtain ⟨ht, hm⟩ := towf_iff.1 h
+  unfold DQ.remove
+  refine SafeR.bind (TO.remove_to (k := k) ht rfl hm) fun r hr => ?_
+  obtain ⟨s1, o⟩ := r
+  dsimp only at hr ⊢
+  rcases hr with ⟨ho, hs1⟩ | ⟨t1, z1, m1, _, _⟩
+  · subst ho hs1
+    exact SafeR.pure h
+  · split
+    · split
+      · refine SafeR.bind (upHeapify_to t1 z1 _) fun s2 hs2 => ?_
+        exact SafeR.pure (towf_of_frame hs2.1 z1 m1 hs2.2.1 hs2.2.2)
+      · exact SafeR.pure (towf_of_tab t1 z1 m1)
+    · exact SafeR.pure (towf_of_tab t1 z1 m1)
+
+theorem popMin_to {s : Store P} (h : s.TablesOnlyWF) : SafeR (fun r => r.1.TablesOnlyWF) (DQ.popMin s) := by
+  obtain ⟨ht, hm⟩ := towf_iff.1 h
+  unfold DQ.popMin findMin
+  split
+  · exact SafeR.pure h
+  · rename_i i hi
+    split at hi
+    · cases hi
+    · cases hi
+      refine SafeR.bind (swapRemove_to ht rfl hm (by omega)) fun r hr => ?_
+      obtain ⟨s1, o⟩ := r
+      obtain ⟨t1, z1, m1, _⟩ := hr
+      dsimp only at t1 z1 m1 ⊢
+      refine SafeR.bind (heapify_to t1 z1 _) fun s2 hs2 => ?_
+      exact SafeR.pure (towf_of_frame hs2.1 z1 m1 hs2.2.1 hs2.2.2)
+
+theorem popMax_to {s : Store P} (h : s.TablesOnlyWF) : SafeR (fun r => r.1.TablesOnlyWF) (DQ.popMax s) := by
+  obtain ⟨ht, hm⟩ := towf_iff.1 h
+  unfold DQ.popMax
+  refine SafeR.bind (findMax_to ht rfl) fun r hr => ?_
+  obtain ⟨s0, o⟩ := r
+  obtain ⟨a1, a2, a3, a4, a5, a6⟩ := hr
+  dsimp only at a1 a2 a3 a4 a5 ⊢
+  have t0 : Tab s0 s.size := ht.congr a1 a2
+  have m0 : s0.map.size ≤ s.size := by rw [a3]; exact hm
+  split
+  · exact SafeR.pure (towf_of_tab t0 a4 m0)
+  · rename_i i
+    refine SafeR.bind (swapRemove_to t0 a4 m0 (a5 i rfl)) fun r hr => ?_
+    obtain ⟨s1, o⟩ := r
+    obtain ⟨t1, z1, m1, _⟩ := hr
+    dsimp only at t1 z1 m1 ⊢
+    refine SafeR.bind (heapify_to t1 z1 _) fun s2 hs2 => ?_
+    exact SafeR.pure (towf_of_frame hs2.1 z1 m1 hs2.2.1 hs2.2.2)
+
+theorem popMinIf_to {s : Store P} (h : s.TablesOnlyWF) (f : Item → P → Bool × Item × P) :
+    SafeR (fun r => r.1.TablesOnlyWF) (DQ.popMinIf s f) := by
+  obtain ⟨ht, hm⟩ := towf_iff.1 h
+  unfold DQ.popMinIf findMin
+  split
+  · exact SafeR.pure h
+  · rename_i i hi
+    split at hi
+    · cases hi
+    · cases hi
+      refine SafeR.bind (swapRemoveIf_to f ht rfl hm (by omega)) fun r hr => ?_
+      obtain ⟨s1, o⟩ := r
+      dsimp only at hr ⊢
+      rcases hr with ⟨t1, z1, m1, _⟩ | ⟨t1, z1, m1, _⟩
+      · refine SafeR.bind (heapify_to t1 z1 _) fun s2 hs2 => ?_
+        exact SafeR.pure (towf_of_frame hs2.1 z1 m1 hs2.2.1 hs2.2.2)
+      · refine SafeR.bind (heapify_to t1 z1 _) fun s2 hs2 => ?_
+        exact SafeR.pure (towf_of_frame hs2.1 z1 m1 hs2.2.1 hs2.2.2)
+
+theorem popMaxIf_to {s : Store P} (h : s.TablesOnlyWF) (f : Item → P → Bool × Item × P) :
+    SafeR (fun r => r.1.TablesOnlyWF) (DQ.popMaxIf s f) := by
+  obtain ⟨ht, hm⟩ := towf_iff.1 h
+  unfold DQ.popMaxIf
+  refine SafeR.bind (findMax_to ht rfl) fun r hr => ?_
+  obtain ⟨s0, o⟩ := r
+  obtain ⟨a1, a2, a3, a4, a5, a6⟩ := hr
+  dsimp only at a1 a2 a3 a4 a5 ⊢
+  have t0 : Tab s0 s.size := ht.congr a1 a2
+  have m0 : s0.map.size ≤ s.size := by rw [a3]; exact hm
+  split
+  · exact SafeR.pure (towf_of_tab t0 a4 m0)
+  · rename_i i
+    refine SafeR.bind (swapRemoveIf_to f t0 a4 m0 (a5 i rfl)) fun r hr => ?_
+    obtain ⟨s1, o⟩ := r
+    dsimp only at hr ⊢
+    rcases hr with ⟨t1, z1, m1, _⟩ | ⟨t1, z1, m1, _⟩
+    · refine SafeR.bind (upHeapify_to t1 z1 _) fun s2 hs2 => ?_
+      exact SafeR.pure (towf_of_frame hs2.1 z1 m1 hs2.2.1 hs2.2.2)
+    · refine SafeR.bind (upHeapify_to t1 z1 _) fun s2 hs2 => ?_
+      exact SafeR.pure (towf_of_frame hs2.1 z1 m1 hs2.2.1 hs2.2.2)
+
+theorem peekMinMutWrite_to {s : Store P} (h : s.TablesOnlyWF) (w : Item → Item) :
+    SafeR (fun r => r.1.TablesOnlyWF) (DQ.peekMinMutWrite s w) := by
+  obtain ⟨ht, hm⟩ := towf_iff.1 h
+  unfold DQ.peekMinMutWrite findMin
+  split
+  · exact SafeR.pure h
+  · rename_i i hi
+    split at hi
+    · cases hi
+    · cases hi
+      refine SafeR.bind (getU_to 329 (by rw [ht.heap_size]; omega)) fun j _ => ?_
+      split
+      · exact SafeR.pure (towf_map_update h (Nat.le_of_eq (IMap.size_setItem _ _ _)))
+      · exact SafeR.pure h
+
+theorem peekMaxMutWrite_to {s : Store P} (h : s.TablesOnlyWF) (w : Item → Item) :
+    SafeR (fun r => r.1.TablesOnlyWF) (DQ.peekMaxMutWrite s w) := by
+  obtain ⟨ht, hm⟩ := towf_iff.1 h
+  unfold DQ.peekMaxMutWrite
+  refine SafeR.bind (findMax_to ht rfl) fun r hr => ?_
+  obtain ⟨s0, o⟩ := r
+  obtain ⟨a1, a2, a3, a4, a5, a6⟩ := hr
+  dsimp only at a1 a2 a3 a4 a5 ⊢
+  have t0 : Tab s0 s.size := ht.congr a1 a2
+  have m0 : s0.map.size ≤ s.size := by rw [a3]; exact hm
+  have w0 : s0.TablesOnlyWF := towf_of_tab t0 a4 m0
+  split
+  · exact SafeR.pure w0
+  · rename_i i
+    refine SafeR.bind (getU_to 330 (by rw [t0.heap_size]; exact a5 i rfl)) fun j _ => ?_
+    split
+    · exact SafeR.pure (towf_map_update w0 (Nat.le_of_eq (IMap.size_setItem _ _ _)))
+    · exact SafeR.pure w0
+
+theorem retainMut_to {s : Store P} (h : s.TablesOnlyWF) (f : Item → P → Bool × Item × P) :
+    SafeR (fun s' => s'.TablesOnlyWF) (DQ.retainMut s f) := by
+  unfold DQ.retainMut
+  exact SafeR.mono (heapBuild_to (towf_retainMut h f)) fun s' hs' => hs'.1
+
+theorem append_to {s o : Store P} (h : s.TablesOnlyWF) (ho : o.TablesOnlyWF) :
+    SafeR (fun r => r.1.TablesOnlyWF) (DQ.append s o) := by
+  unfold DQ.append
+  dsimp only
+  refine SafeR.bind (heapBuild_to (towf_append h ho)) fun s1 hs1 => ?_
+  exact SafeR.pure hs1.1
+
+theorem pushAll_to : ∀ (es : List (Item × P)) {s : Store P}, s.TablesOnlyWF →
+    SafeR (fun s' => s'.TablesOnlyWF) (DQ.pushAll es s) := by
+  intro es
+  induction es with
+  | nil => intro s h; unfold DQ.pushAll; exact SafeR.pure h
+  | cons e es ih =>
+    intro s h
+    unfold DQ.pushAll
+    refine SafeR.bind (push_to h e.1 e.2) fun r hr => ?_
+    exact ih hr
+
+theorem extend_to {s : Store P} {lo : Nat} (h : s.TablesOnlyWF) (hlo : lo < capLimit) (xs : Array (Item × P)) :
+    SafeR (fun s' => s'.TablesOnlyWF) (DQ.extend s lo xs) := by
+  unfold DQ.extend
+  rw [reserveC_bind_of_lt _ hlo]
+  dsimp only
+  have hb : SafeR (fun s' => s'.TablesOnlyWF) (DQ.heapBuild (s.extend xs)) :=
+    SafeR.mono (heapBuild_to (towf_extend h xs)) fun s' hs' => hs'.1
+  have hp : SafeR (fun s' => s'.TablesOnlyWF) (DQ.pushAll xs.toList s) := pushAll_to xs.toList h
+  split <;> (try split) <;> first | exact hb | exact hp
+
+theorem ofStore_to {s : Store P} (h : s.TablesOnlyWF) : SafeR (fun s' => s'.TablesOnlyWF) (DQ.ofStore s) := by
+  unfold DQ.ofStore
+  exact SafeR.mono (heapBuild_to h) fun s' hs' => hs'.1
+
+/-! ## Non-vacuity: concrete tables-only stores whose map is shorter than the tables -/
+
+/-- three positions, two entries -/
+def exShort : Store Nat :=
+  { map := #[(⟨7, 0⟩, 5), (⟨8, 0⟩, 3)], heap := #[1, 0, 2], qp := #[1, 0, 2], size := 3 }
+
+/-- four positions, three entries -/
+def exShort4 : Store Nat :=
+  { map := #[(⟨7, 0⟩, 5), (⟨8, 0⟩, 3), (⟨9, 0⟩, 4)], heap := #[1, 0, 2, 3], qp := #[1, 0, 2, 3], size := 4 }
+
+example : exShort.TablesOnlyWF ∧ exShort.map.size < exShort.size := by decide
+example : exShort4.TablesOnlyWF ∧ exShort4.map.size < exShort4.size := by decide
+/-- the hypotheses of the procedures (`Tab`, `Hole`) hold of it -/
+example : Tab exShort 3 ∧ exShort.size = 3 ∧ Hole exShort 3 2 2 :=
+  have ht : Tab exShort 3 := (towf_iff.1 (by decide : exShort.TablesOnlyWF)).1
+  ⟨ht, rfl, ht.toHole (by decide)⟩
+/-- the fault a result ends in, if any -/
+def faultOf {α : Type} : R α → Option Fault
+  | .ok _ => none
+  | .error f => some f
+
+/-- both outcomes occur: an ordinary `unwrap` panic … -/
+example : faultOf (DQ.popMin exShort) = some (.unwrapNone 106) := by decide +kernel
+example : faultOf (DQ.push exShort ⟨10, 1⟩ 9) = some (.unwrapNone 310) := by decide +kernel
+example : faultOf (DQ.remove exShort4 9) = some (.unwrapNone 310) := by decide +kernel
+example : faultOf (DQ.ofStore exShort) = some (.unwrapNone 303) := by decide +kernel
+/-- … or a normal return in a tables-only state (the map is still shorter than the tables) -/
+example : (DQ.push exShort ⟨7, 1⟩ 9).toOption.map (fun r => decide (r.1.TablesOnlyWF ∧ r.1.map.size < r.1.size)) =
+    some true := by decide +kernel
+example : (DQ.popMax exShort4).toOption.map (fun r => decide (r.1.TablesOnlyWF ∧ r.1.map.size < r.1.size)) =
+    some true := by decide +kernel
+example : (DQ.remove exShort4 7).toOption.map (fun r => decide (r.1.TablesOnlyWF ∧ r.1.map.size < r.1.size)) =
+    some true := by decide +kernel
+
 end DQ
 end TO
 end PQ
